@@ -297,7 +297,7 @@ def static_size(e):
         return 10**9
 
 
-def derivative_case(c, stream, label, e, wrt, args, second=True, outcome=None, e_lean=None, of_simplified=False, **kw):
+def derivative_case(c, stream, label, e, wrt, args, second=True, outcome=None, e_lean=None, of_simplified=False, max_entries=None, **kw):
     """build the Case(s) for expression e and argument name wrt using the REAL derivative; returns list of Case"""
     var = find_argument(e, wrt)
     if var is None:
@@ -316,7 +316,7 @@ def derivative_case(c, stream, label, e, wrt, args, second=True, outcome=None, e
         c.failing_input(sig, 'evaluable.derivative raises %r on a well-formed expression' % (d,), dict(stream=stream, label=label, expr=X.describe(e, args), wrt=wrt, pickled=pack(e, args)))
         return []
     xsize = int(numpy.asarray(args[wrt]).size)
-    if static_size(e) * xsize > MAX_ENTRIES:
+    if static_size(e) * xsize > (max_entries or MAX_ENTRIES):
         if outcome is not None: outcome['skipped-too-many-jacobian-entries'] += 1
         return []
     ds = [('raw', d)]
@@ -927,6 +927,119 @@ def stream_special(c, J):
             cases += derivative_case(c, 'special', 'Monomial: factor(Σ x²y + 2x) wrt ' + wrt, f, wrt, args, second=False, outcome=J.outcome, e_lean=poly, jacpt=True)
     else:
         J.outcome['factor-' + kind] += 1
+    return cases
+
+
+def distinct_shape(rng, rank):
+    """axis lengths pairwise different (as far as small sizes allow) in random order: an axis permutation, a wrong stride or a wrong
+    pairing of axes can only show when the shape is not invariant under it"""
+    base = {0: [()], 1: [(2,), (3,), (4,)], 2: [(2, 3), (2, 4), (3, 4)], 3: [(2, 3, 4)], 4: [(1, 2, 3, 4)]}[rank]
+    sh = list(rng.choice(base)); rng.shuffle(sh)
+    return tuple(sh)
+
+
+def sparse_dyadic(rng, shape, pzero=.35):
+    """dyadic constant with some exact zeros (factor() keeps the coefficients in sparse COO form: irregular index sets)"""
+    r = numpy.random.default_rng(rng.getrandbits(32))
+    v = r.integers(1, 9, shape) * r.choice([-1., 1.], shape) / rng.choice([1., 2., 4.])
+    v = numpy.where(r.random(shape) < pzero, 0., v)
+    if v.size and not v.any(): v.reshape(-1)[0] = 1.
+    return v
+
+
+def random_polynomial(rng, argv):
+    """polynomial expression (plain operations of the Lean fragment) in the Arguments `argv` = [(Argument, shape)]; total degree <= 3;
+    returns (label, expression)"""
+    cst = lambda v: ev.Constant(types.arraydata(numpy.asarray(v, dtype=float)))
+    def power(a, p):
+        out = a
+        for _ in range(p - 1): out = out * a
+        return out
+    def contract(a, shape, p, k):
+        # sum over ALL axes of the argument against a constant of shape k + shape
+        f = cst(sparse_dyadic(rng, k + shape)) * ev.prependaxes(power(a, p), tuple(ev.constant(n) for n in k))
+        for _ in shape: f = ev.Sum(f)
+        return f
+    kind = rng.choice(['contract', 'contract', 'partial'])
+    if kind == 'partial' and not any(len(sh) >= 2 for _, sh in argv): kind = 'contract'
+    if kind == 'contract':
+        k = rng.choice([(), (2,), (2,), (3,)])
+        terms = []
+        for _ in range(rng.choice([2, 3])):
+            budget = 3; term = None
+            for a, shape in rng.sample(argv, rng.randint(1, min(2, len(argv)))):
+                p = rng.randint(1, min(2, budget)); budget -= p
+                f = contract(a, shape, p, k)
+                term = f if term is None else term * f
+                if budget <= 0: break
+            terms.append(term)
+        e = functools.reduce(lambda x, y: x + y, terms) + cst(sparse_dyadic(rng, k, 0.))
+        return 'contract%s' % (k,), e
+    # 'partial': the result keeps some axes of a high-rank argument (transposed), the others are contracted; another argument enters
+    # through a broadcast over the kept axes
+    a, shape = rng.choice([t for t in argv if len(t[1]) >= 2])
+    nd = len(shape)
+    axes = list(range(nd)); rng.shuffle(axes)
+    q = cst(sparse_dyadic(rng, shape)) * power(a, rng.choice([1, 2])) + a * cst(sparse_dyadic(rng, shape))
+    q = ev.Transpose(q, tuple(axes))
+    nkeep = rng.choice([1, 1, 2]) if nd > 2 else 1
+    for _ in range(nd - nkeep): q = ev.Sum(q)
+    others = [t for t in argv if t[0] is not a]
+    if others:
+        b, bshape = rng.choice(others)
+        q = q * ev.prependaxes(contract(b, bshape, 1, ()), q.shape) + q
+    return 'partial(axes %s keep %d)' % (axes, nkeep), q
+
+
+FACTOR_MAX_ENTRIES = 600
+
+
+def stream_factor(c, J, n):
+    """Monomial._derivative: evaluable.factor of random polynomials in arguments of 0..4 axes with pairwise different axis lengths; first
+    derivatives w.r.t. every argument and mixed second derivatives of the FACTORED form, against the formal Jacobian of the un-factored
+    polynomial (Lean) and finite differences; the un-factored polynomial goes through the ordinary symbolic check"""
+    cases = []
+    rng = c.rng
+    for i in range(n):
+        nargs = rng.choice([1, 2, 2, 3])
+        ranks = [rng.choice([3, 3, 4])] + [rng.choice([0, 1, 1, 2, 2, 3]) for _ in range(nargs - 1)]
+        rng.shuffle(ranks)
+        argv, args = [], {}
+        for j, r in enumerate(ranks):
+            shape = distinct_shape(rng, r)
+            name = 'pqr'[j]
+            argv.append((A(name, *shape), shape)); args[name] = dyadic(rng, shape)
+        try:
+            label, poly = random_polynomial(rng, argv)
+        except Exception as ex:
+            J.outcome['factor:generator-exception:' + type(ex).__name__] += 1; continue
+        label = 'factor(%s in %s)' % (label, ', '.join('%s%s' % (a.name, sh) for a, sh in argv))
+        kind, f = X.guarded(lambda: ev.factor(poly), 60)
+        if kind != 'ok':
+            J.outcome['factor-%s:%s' % (kind, type(f).__name__)] += 1; continue
+        # the factored VALUE is C02's business; a mismatch here would make the oracle meaningless
+        k1, v1 = X.real_eval(f, args); k2, v2 = X.real_eval(poly, args)
+        if k1 != 'ok' or k2 != 'ok' or not X.arrays_close(v1, v2):
+            J.outcome['factor:value-differs-from-unfactored'] += 1; continue
+        for k, v in collections.Counter(type(nd).__name__ for nd in shrink.all_nodes(f) if type(nd).__name__ == 'Monomial').items(): c.count('factor:' + k, v)
+        used = [(a, sh) for a, sh in argv if find_argument(poly, a.name) is not None]
+        for a, sh in used:
+            c.count('factor:wrt-rank-%d' % len(sh))
+            if static_size(poly) * int(numpy.prod(sh, dtype=int)) > FACTOR_MAX_ENTRIES:
+                J.outcome['skipped-too-many-jacobian-entries'] += 1; continue
+            cases += derivative_case(c, 'factor', label + ' wrt ' + a.name, f, a.name, args, second=False, outcome=J.outcome, e_lean=poly, jacpt=True, max_entries=FACTOR_MAX_ENTRIES)
+            # repeated differentiation of the factored form (the rule recurses through the Monomials it builds), mixed partials included
+            kd, d1 = safe_derivative(f, a)
+            kp, p1 = safe_derivative(poly, a)
+            if kd != 'ok' or kp != 'ok': continue
+            seconds = [(b, shb) for b, shb in used if static_size(d1) * int(numpy.prod(shb, dtype=int)) <= FACTOR_MAX_ENTRIES]
+            if seconds:
+                b, shb = rng.choice(seconds)
+                cases += derivative_case(c, 'factor', label + ' wrt %s, %s' % (a.name, b.name), d1, b.name, args, second=False, outcome=J.outcome, e_lean=p1, jacpt=True, max_entries=FACTOR_MAX_ENTRIES)
+        # the un-factored polynomial itself: ordinary symbolic check (its derivative trees serve as specification above)
+        a, sh = rng.choice(used) if used else (None, None)
+        if a is not None and static_size(poly) * int(numpy.prod(sh, dtype=int)) <= MAX_ENTRIES:
+            cases += derivative_case(c, 'factor-unfactored', label + ' wrt ' + a.name, poly, a.name, args, second=False, outcome=J.outcome)
     return cases
 
 
